@@ -11,8 +11,22 @@ MUT = [('slice-shifted', TMF, "        end_states = assigns_1d[lag_time::1]", " 
 def run(tier, seed, update_lock=False):
     R = Run('C03', 'other', tier, seed)
     u = Unit('transitions-helper', counts.registry(), mutants=MUT)
-    R.prove(u)
-    R.canary_check(u)
+    units = [u]
+    MUTC = [('states-forced', TMF, "    if max_n_states is None:\n        max_n_states = np.concatenate(assigns).max() + 1\n", "    if max_n_states is None:\n        max_n_states = 1\n"),
+            ('lag-not-passed', TMF, "            assign, lag_time=lag_time, sliding_window=sliding_window)", "            assign, lag_time=1, sliding_window=sliding_window)"),
+            ('padding-kept', TMF, "    assigns = np.array([a[np.where(a != -1)] for a in assigns], dtype='O')", "    assigns = np.array([a[np.where(a != -2)] for a in assigns], dtype='O')"),
+            ('two-per-pair', TMF, "    mat_data = np.ones(mat_coords.shape[1], dtype=int)", "    mat_data = np.ones(mat_coords.shape[1], dtype=int) + 1")]
+    for explicit in (True, False):
+        for sliding in (True, False):
+            reg = counts.registry_counts(explicit, sliding)
+            units.append(Unit('assigns_to_counts[states=%s,sliding=%s]' % ('explicit' if explicit else 'inferred', sliding), reg,
+                              keys=[counts.F + 'assigns_to_counts'], budget=15,
+                              mutants=(MUTC[1:] if (explicit, sliding) == (True, True) else MUTC[:1] if (explicit, sliding) == (False, True) else [])))
+    for x in units:
+        R.prove(x)
+    for x in units[:4]:
+        R.canary_check(x)
+    R.conformance('C03.py', units[:1])
     R.bounded('C03.py', 'run-time contract = the statement (brute-force pair count) on the real assigns_to_counts; relational clauses',
               'all trajectory sets <= 3 x length <= 4 over 3 states (strided in quick), lags 1..5, sliding on/off, padded/ragged/reordered/split, scale cases')
 
@@ -20,9 +34,9 @@ def run(tier, seed, update_lock=False):
         return {'key': counts.TransitionsHelper.key, 'inputs': f['model'], 'obligation': f['oid']}
     resolve_failures(R, 'C03.py', payload)
     R.clauses = [{'clause': 'per-trajectory lagged slicing: number of pairs, start/end states, pairs inside the trajectory, all L>=0, lag>=1, both modes', 'status': 'proved (SMT, symbolic L and lag)'},
-                 {'clause': 'assigns_to_counts: entry(i,j) = number of pairs; square with requested/observed states; total; raises on bad lag / 1-D input', 'status': 'bounded (run-time contract, exhaustive small scope + scale cases)'},
-                 {'clause': 'no pair spans two trajectories; -1 padding ignored; ragged = padded = reordered; additive', 'status': 'bounded'}]
+                 {'clause': 'assigns_to_counts on a -1-padded rectangular array (symbolic number of trajectories / frames / lag, explicit and inferred state count, sliding and strided): the coordinate list is, trajectory by trajectory, exactly the lagged pairs of the padding-free row (so no pair spans two trajectories), one unit count each, total = sum over trajectories, all coordinates inside the square (N,N) matrix', 'status': 'proved (SMT; ragged lists as templates over the comprehension index, skolem-lifted primitive contracts, prefix-sum facts of np.hstack trusted); entry(i,j) = number of coordinates equal to (i,j) is scipy\'s coo_matrix contract (trusted)'},
+                 {'clause': 'same result for RaggedArray input, for reordered trajectories; additivity over trajectory sets; counts beyond 8/16-bit ranges', 'status': 'bounded (run-time contract = brute-force pair count)'}]
     R.assumptions += ['scipy.sparse.coo_matrix sums duplicate coordinates (entry = number of coordinate pairs)',
-                      'assigns_to_counts builds object arrays of per-row arrays (ragged): outside the executor\'s array model, hence bounded']
-    return R.finish('Proved: _transitions_helper (the lagged-pair arithmetic, incl. the non-linear strided case). Bounded: the composition in assigns_to_counts against the statement itself.',
+                      'RaggedArray input to assigns_to_counts (iteration over a RaggedArray yields its rows) is bounded only; NumPy integer arrays assumed not to wrap (the narrow-dtype seed C03-b is caught by the bounded scale cases only)']
+    return R.finish('Proved: _transitions_helper (the lagged-pair arithmetic, incl. the non-linear strided case) and the composition in assigns_to_counts for rectangular padded input. Bounded: ragged input and the relational clauses, against the statement itself.',
                     update_lock=update_lock)
